@@ -22,8 +22,13 @@ Inv_C38_refs ==
         /\ (obs.del[d].has => obs.del[d].aok)
         /\ \A i \in 1..Len(obs.del[d].un) : obs.del[d].un[i].ok
 
+\* rewards paid + what the REAL contract says every delegator can claim now (getClaimableRewards) <= rewards received
+ObsClm(d) == obs.del[d].clm
+Inv_C38_rewards_owed_obs == obs = <<>> \/ hv.paid + SumSet({d \in D : obs.del[d].ex}, ObsClm) <= hv.received
+M_rewards_owed_obs == tainted \/ Inv_C38_rewards_owed_obs
+
 \* reported when, on a trace in which the named deviation has bitten, the property is false on the observed state
-Mark == (tainted' /\ ~Inv_C38_rewards_owed') => PrintT("@@KD" \o ToString(l) \o " 1")
+Mark == (tainted' /\ ~Inv_C38_rewards_owed_obs') => PrintT("@@KD" \o ToString(l) \o " 1")
 
 EmptyHv == [received |-> 0, paid |-> 0, withdrawn |-> 0, undelegated |-> 0, nrew |-> 0]
 
@@ -43,7 +48,7 @@ TNew ==
     /\ hist' = <<[a |-> "New", in |-> Ev.in, out |-> Ev.out, st |-> Ev.st]>>
     /\ obs' = Ev.st
     /\ Ev.st = [epoch |-> epoch', iof |-> iof', fee |-> fee', cap |-> cap', tot |-> tot',
-                del |-> [d \in D |-> StDel(del'[d])], rew |-> rew']
+                del |-> [d \in D |-> StDel(del'[d], d, rew', epoch')], rew |-> rew']
 
 Strict ==
     \/ IsEvent("Delegate") /\ \E fx \in BOOLEAN : Delegate(Ev.in.d, Ev.in.v, fx)
@@ -63,7 +68,7 @@ Paid == IF Ev.out.ok THEN Ev.out.paid ELSE 0
 ObsStale ==
     /\ Ev.a \in {"Delegate", "ReDelegate"} /\ Ev.out.ok
     /\ del[Ev.in.d].ex /\ ~del[Ev.in.d].has /\ Ev.st.del[Ev.in.d].has
-    /\ RewardsFor(Ev.st.rew, Ev.st.epoch, Ev.in.d, Ev.st.del[Ev.in.d].a, Ev.st.del[Ev.in.d].ckpt) > 0
+    /\ Ev.st.del[Ev.in.d].clm > Ev.st.del[Ev.in.d].unc      \* the real contract owes it rewards for the time it had no stake
 Obs ==
     /\ l <= Len(TLog) /\ Ev.a # "New" /\ l' = l + 1
     /\ epoch' = Ev.st.epoch /\ iof' = Ev.st.iof /\ fee' = Ev.st.fee /\ cap' = Ev.st.cap /\ ccr' = ccr
